@@ -884,6 +884,47 @@ def static_obligations(eng):
                         bad.append('%s line %d: local function %s' % (fi.name, node.lineno, e.id))
                     if isinstance(e, ast.Call) and isinstance(e.func, ast.Name) and e.func.id in ('open', 'iter', 'id'):
                         bad.append('%s line %d: %s(...)' % (fi.name, node.lineno, e.func.id))
+        # A7 side condition (C05): joblib tasks that write the receiver's state must run in shared memory
+        for fi in ci.methods.values():
+            for node in ast.walk(fi.node):
+                if not (isinstance(node, ast.Call) and isinstance(node.func, ast.Call) and
+                        isinstance(node.func.func, ast.Name) and node.func.func.id == 'Parallel' and node.args):
+                    continue
+                gen = node.args[0]
+                elt = gen.elt if isinstance(gen, (ast.GeneratorExp, ast.ListComp)) else None
+                tgt = None
+                if isinstance(elt, ast.Call) and isinstance(elt.func, ast.Call) and isinstance(elt.func.func, ast.Name) \
+                        and elt.func.func.id == 'delayed' and elt.func.args:
+                    a0 = elt.func.args[0]
+                    if isinstance(a0, ast.Attribute) and isinstance(a0.value, ast.Name) and a0.value.id == 'self':
+                        tgt = a0.attr
+                if tgt is None:
+                    continue
+                writes = False
+                seen_m = set()
+                for sub in [cname] + eng.repo.subclasses(cname):       # the task may be any override of the method
+                    mfi = eng.repo.lookup_method(sub, tgt)
+                    if mfi is None or mfi.qual in seen_m:
+                        continue
+                    seen_m.add(mfi.qual)
+                    msp = specmod.lookup(eng.repo, mfi.qual, sub)
+                    if msp is not None and not msp.inline:
+                        writes = writes or any(not m.startswith('self.rng') for m in msp.modifies)
+                    else:
+                        writes = writes or any(
+                            isinstance(n2, (ast.Assign, ast.AugAssign)) and any(
+                                isinstance(e, ast.Attribute) and isinstance(e.value, ast.Name) and e.value.id == 'self'
+                                for t in (n2.targets if isinstance(n2, ast.Assign) else [n2.target]) for e in ast.walk(t))
+                            for n2 in ast.walk(mfi.node))
+                kws = {k.arg: (k.value.value if isinstance(k.value, ast.Constant) else None) for k in node.func.keywords}
+                ok = (not writes) or kws.get('require') == 'sharedmem'
+                ob = Obligation('%s.%s.%s:par.sharedmem[%s]' % (ci.module, cname, fi.name, tgt), fi.qual, 'par.sharedmem', [],
+                                z3.BoolVal(bool(ok)), props=('C05',),
+                                meta={'clause': 'Parallel(...) over delayed(self.%s): the task %s the receiver, so the call '
+                                                'must say require="sharedmem" (found %s)'
+                                                % (tgt, 'writes' if writes else 'does not write', kws)})
+                ob.path = []
+                out.append(ob)
         ob = Obligation('%s.%s:attr.universe.static' % (ci.module, cname), '%s.%s' % (ci.module, cname), 'attr.universe', [],
                         z3.BoolVal(not bad), props=('C19',),
                         meta={'clause': 'no store through self of a lambda, generator expression, local function, open(), '
